@@ -64,6 +64,10 @@ func (d Date) Validate() error {
 	if !d.Date.IsValid() {
 		return errors.New("invalid date")
 	}
+	if d.Date.Year < 0 || d.Date.Year > 9999 {
+		// the text form and the published schema only know four-digit years
+		return errors.New("year out of range")
+	}
 	return nil
 }
 
